@@ -100,23 +100,29 @@ func (s *Store) proc() string {
 	return "?"
 }
 
-// ValRepr renders a stored value for the trace: index records as [rev,del], others as string.
+// ValRepr renders a stored value for the trace as a uniform 4-tuple [tag, int, int, string]:
+// absent ["n",0,0,""], index record ["i",rev,del,""], version ["v",0,0,value],
+// special record (compaction floor) ["s",num,0,""], anything else ["x",0,0,value].
 func ValRepr(kind string, rev uint64, v []byte) interface{} {
 	if v == nil {
-		return "<nil>"
+		return []interface{}{"n", 0, 0, ""}
 	}
 	if kind == "obj" && rev == 0 {
 		if len(v) == 8 {
-			return []interface{}{clip(binary.BigEndian.Uint64(v)), 0}
+			return []interface{}{"i", clip(binary.BigEndian.Uint64(v)), 0, ""}
 		}
 		if len(v) == 9 {
-			return []interface{}{clip(binary.BigEndian.Uint64(v)), 1}
+			return []interface{}{"i", clip(binary.BigEndian.Uint64(v)), 1, ""}
 		}
+		return []interface{}{"x", 0, 0, string(v)}
 	}
-	if kind == "special" && len(v) == 8 {
-		return clip(binary.BigEndian.Uint64(v))
+	if kind == "special" {
+		if len(v) == 8 {
+			return []interface{}{"s", clip(binary.BigEndian.Uint64(v)), 0, ""}
+		}
+		return []interface{}{"x", 0, 0, string(v)}
 	}
-	return string(v)
+	return []interface{}{"v", 0, 0, string(v)}
 }
 
 // clip maps a uint64 into TLC's 32-bit integer range.
@@ -133,16 +139,13 @@ func Clip(u uint64) int64 { return clip(u) }
 func (s *Store) keyEv(e Event, k []byte) (kind string, rev uint64) {
 	kind, num, rev, name := s.Keys.DecodeInternal(k)
 	e["kk"] = kind
-	switch kind {
-	case "obj":
-		e["k"] = num
-		e["r"] = clip(rev)
-	case "special":
-		e["k"] = name
-		e["r"] = 0
-	default:
-		e["k"] = name
-		e["r"] = clip(rev)
+	e["k"] = num
+	e["r"] = clip(rev)
+	if kind != "obj" {
+		e["name"] = name
+		if kind == "special" {
+			e["r"] = 0
+		}
 	}
 	return kind, rev
 }
@@ -273,9 +276,9 @@ func (s *Store) readBack(k []byte) interface{} {
 	v, err := s.Inner.Get(context.Background(), k)
 	if err != nil {
 		if err == storage.ErrKeyNotFound {
-			return "<nil>"
+			return []interface{}{"n", 0, 0, ""}
 		}
-		return "<err>"
+		return []interface{}{"e", 0, 0, ""}
 	}
 	kind, _, rev, _ := s.Keys.DecodeInternal(k)
 	return ValRepr(kind, rev, v)
